@@ -37,7 +37,7 @@ def run_mutant(m):
     shutil.rmtree(d, ignore_errors=True)
 
 
-def run_patch(path, props):
+def run_patch(path, props, tier="quick"):
   d = tempfile.mkdtemp(prefix="vfseed_")
   try:
     subprocess.run("git -C /repo archive HEAD miros | tar -x -C %s" % d, shell=True, check=True)
@@ -51,8 +51,8 @@ def run_patch(path, props):
     out = []
     for pid in props:
       env = dict(os.environ, MIROS_REPO=d, PYTHONHASHSEED="0", VERIF_NO_EVIDENCE="1")
-      r = subprocess.run(["/venv/bin/python", "-m", "harness.run", pid, "--tier", "quick"],
-                         cwd=VERIF, env=env, stdout=subprocess.PIPE, stderr=subprocess.STDOUT, timeout=1800)
+      r = subprocess.run(["/venv/bin/python", "-m", "harness.run", pid, "--tier", tier],
+                         cwd=VERIF, env=env, stdout=subprocess.PIPE, stderr=subprocess.STDOUT, timeout=7200)
       txt = r.stdout.decode("utf-8", "replace")
       fl = [l for l in txt.splitlines() if l.startswith("failure:")]
       out.append((pid, "rc=%d %s" % (r.returncode, fl[0][:160] if fl else txt.strip().splitlines()[-1][:160])))
@@ -72,7 +72,8 @@ if __name__ == "__main__":
         if args and not any(a in meta for a in args):
           continue
         props = m.get("checks") or [m["property"]]
-        jobs.append(ex.submit(run_patch, os.path.join(os.path.dirname(meta), "patch.diff"), props))
+        jobs.append(ex.submit(run_patch, os.path.join(os.path.dirname(meta), "patch.diff"), props,
+                              m.get("tier", "quick")))
     else:
       for m in MUTANTS:
         if args and not any(a in m[0] for a in args):
